@@ -1,5 +1,6 @@
 import ProductMD.Driver.Proto
 import ProductMD.Model.Validation
+import ProductMD.Model.Loads
 import ProductMD.Spec.Rules
 /-! driver ops of C06/C07: validate a part, evaluate the rule catalogue on a part, the dumps walk, the loads model -/
 namespace PM.Driver.OpsValidation
@@ -70,6 +71,22 @@ def outcomeJson : Except Err Unit → Json
   | .ok () => jok Json.null
   | .error e => errJson e
 
+def loadOutcome {α} (front : Bool) : Except Err α → Json
+  | .ok _ => if front then Json.mkObj [("front", Json.str "ok")] else jok Json.null
+  | .error e => errJson e
+
+/-- outcome of the loads model; `{"front": "ok"}` = the modelled leading sections are accepted, the rest is not modelled -/
+def loadsOf (fmt : String) (doc : PyVal) : Json :=
+  match fmt with
+  | "rpms" => loadOutcome false (Loads.rpmsLoads doc)
+  | "modules" => loadOutcome false (Loads.modulesLoads doc)
+  | "extra_files" => loadOutcome false (Loads.extraFilesLoads doc)
+  | "images" => loadOutcome false (Loads.imagesLoads doc)
+  | "discinfo" => loadOutcome false (Loads.discLoads doc)
+  | "composeinfo" => loadOutcome true (Loads.ciFrontLoads doc)
+  | "treeinfo" => loadOutcome true (Loads.tiFrontLoads doc)
+  | _ => jerr "bad-format"
+
 def ops : List (String × (Json → Json)) :=
   [("c06_validate", fun a => outcomeJson (validate2 (String.ofList (getStrD a "cls")) (objOf (get a "obj")))),
    ("c06_spec", fun a => Json.arr ((violated (String.ofList (getStrD a "cls")) (objOf (get a "obj"))).map jnat).toArray),
@@ -78,6 +95,7 @@ def ops : List (String × (Json → Json)) :=
       | none => jerr "bad-format"
       | some (out, parts) =>
         Json.mkObj [("out", outcomeJson out),
-                    ("parts", Json.arr (parts.map fun p => Json.mkObj [("cls", Json.str p.cls), ("violated", Json.arr ((violated p.cls p.obj).map jnat).toArray)]).toArray)])]
+                    ("parts", Json.arr (parts.map fun p => Json.mkObj [("cls", Json.str p.cls), ("violated", Json.arr ((violated p.cls p.obj).map jnat).toArray)]).toArray)]),
+   ("c07_loads", fun a => loadsOf (String.ofList (getStrD a "fmt")) (toPy (get a "doc")))]
 
 end PM.Driver.OpsValidation
